@@ -192,7 +192,8 @@ def run(ctx):
   ctx.log("TLC enumerated %d inputs (%d distinct states) in %.1fs" % (len(inputs), model["distinct"], model["wall"]))
   rnd = random_inputs(ctx.seed, 3000 if ctx.quick else 60000)
   # enumerated and random inputs share the worker processes and the judge JVMs
-  files = fnspec.run_cases(WORKER, inputs + rnd, ctx.workdir, nshards=16, extra={"universe": upath})
+  files = fnspec.run_cases(WORKER, inputs + rnd, ctx.workdir, nshards=8 if ctx.quick else 16,
+                           extra={"universe": upath})
   failures, n, wall = fnspec.judge(SPEC, files, ctx.workdir)
   ctx.log("judged %d cases (%d enumerated, %d random) in %.1fs" % (n, len(inputs), len(rnd), wall))
   if n != len(inputs) + len(rnd):
